@@ -167,8 +167,12 @@ def make_disk(w, data):
     disk = seams.SimDisk(buffer_size=knobs.get("buffer_size", 8192), chunk_size=knobs.get("chunk_size"))
     for link, target in (w.get("symlinks") or {}).items():
         disk.symlink(link, target)
+    for link, target in (w.get("file_symlinks") or {}).items():
+        disk.symlink(link, target)  # (the output name is a symbolic link to a file, which may not exist yet)
     if not w.get("input_missing"):
         disk.put(w["input_name"], data)
+    for nname, nfile in (w.get("neighbours") or {}).items():
+        disk.put(nname, raw_input(nfile))  # other files next to the input (names that a wildcard would match)
     if w.get("target_pre"):
         disk.put(w["output_name"], PRE)
     disk.plans[w["output_name"]] = seams.WritePlan.from_faults(w.get("output_faults"))
@@ -186,7 +190,7 @@ def _outcome(disk, w, status, err, exc=None):
         if exc.__context__ is not None:
             exc.__context__.__traceback__ = None
     gc.collect()
-    return {"status": status, "stderr": err, "exc": exc, "bytes": disk.get(w["output_name"]),
+    return {"status": status, "stderr": err, "exc": exc, "bytes": disk.get(w["output_name"]), "tree": disk.tree(),
             "opened_w": len(disk.events_for(w["output_name"], ("open_w",))),
             "fired": list(disk.plans[w["output_name"]].fired), "handles": len(disk.open_handles())}
 
@@ -234,7 +238,10 @@ def run_main(w, data):
         np.seterr(**old_err)
     text = err.getvalue()
     if exc is not None:
-        text += f"{type(exc).__name__}: {exc}"
+        try:
+            text += f"{type(exc).__name__}: {exc}"
+        except Exception:  # noqa: BLE001 - what the interpreter prints when str() of the exception raises
+            text += f"{type(exc).__name__}: <exception str() failed>"
     return _outcome(disk, w, status, text, exc)
 
 
@@ -242,11 +249,13 @@ def run_subprocess(w, data):
     tmp = tempfile.mkdtemp(prefix="c18-")
     try:
         files = {} if w.get("input_missing") else {w["input_name"]: base64.b64encode(data).decode()}
+        for nname, nfile in (w.get("neighbours") or {}).items():
+            files[nname] = base64.b64encode(raw_input(nfile)).decode()
         if w.get("target_pre"):
             files[w["output_name"]] = base64.b64encode(PRE).decode()
         plan = {"verif": common.VERIF, "files": files, "plans": {w["output_name"]: w.get("output_faults") or []},
                 "knobs": {**w.get("knobs", {}), "mem": w.get("mem")}, "result": os.path.join(tmp, "result.json"), "symlinks": w.get("symlinks") or {},
-                "report": [w["output_name"], w["input_name"]]}
+                "report": [w["output_name"], w["input_name"]], "file_symlinks": w.get("file_symlinks") or {}}
         with open(os.path.join(tmp, "plan.json"), "w") as fh:
             json.dump(plan, fh)
         env = {k: v for k, v in os.environ.items() if not k.startswith("VERIF_")}
@@ -293,9 +302,25 @@ def compare(w, api, other, label):
         elif other["bytes"] != api["bytes"]:
             out.append(_v("different_content", f"{label} exits 0 but wrote different bytes than the API "
                           f"({None if other['bytes'] is None else len(other['bytes'])} vs {None if api['bytes'] is None else len(api['bytes'])})", w, label))
+        elif other.get("tree") is not None and api.get("tree") is not None and other["tree"] != api["tree"]:
+            # the same bytes under the output name, but not the same file system: other files written or left behind, a
+            # symbolic link replaced instead of written through, directories created
+            diff = []
+            for part in ("files", "symlinks", "dirs"):
+                a_, b_ = api["tree"][part], other["tree"][part]
+                if a_ != b_:
+                    ka = set(a_) if isinstance(a_, dict) else set(a_)
+                    kb = set(b_) if isinstance(b_, dict) else set(b_)
+                    diff.append(f"{part}: only API {sorted(ka - kb)[:3]}, only {label} {sorted(kb - ka)[:3]}, differing "
+                                f"{sorted(k for k in ka & kb if isinstance(a_, dict) and a_[k] != b_[k])[:3]}")
+            out.append(_v("different_file_system_state", f"{label} exits 0 and the output reads the same, but the file system differs from what the API calls leave: {'; '.join(diff)}", w, label))
     else:
         if not other["stderr"].strip():
             out.append(_v("silent_failure", f"{label} exits {other['status']} without any message", w, label))
+        elif not ok_api and not any(os.path.basename(n_) in other["stderr"] for n_ in (w["input_name"], w["output_name"])):
+            # "an error naming the problem": every error of the library names the file it is about
+            out.append(_v("error_names_no_file", f"{label} exits {other['status']} but its message names neither the input nor the output file: "
+                          f"{other['stderr'].strip()[-200:]}", w, label))
         if ok_api:
             # allowed only for the floating-point trapping of the CLI, and it must say so
             if "FloatingPointError" not in other["stderr"] and "floating" not in other["stderr"].lower() and \
@@ -404,6 +429,18 @@ def gen_workload(rng, tier):
         w["outfmt"] = None
     if rng.random() < 0.05:
         w["input_name"] = rng.choice(["in.unknown", "in.xyz", "in.fchk"])
+    r = rng.random()
+    if r < 0.06 and "/" not in w["input_name"]:
+        # a file name with wildcard characters, next to a file that the pattern would match (the name is literal)
+        stem, dot, ext = w["input_name"].rpartition(".")
+        if dot:
+            w["input_name"] = f"{stem}[1].{ext}" if rng.random() < 0.7 else f"{stem}?.{ext}"
+            other_f = rng.choice([p_[0] for p_ in PAIRS if p_[0] != f and p_[0].endswith("." + ext)] or [f])
+            w["neighbours"] = {f"{stem}1.{ext}": other_f}
+    elif r < 0.12 and "/" not in w["output_name"]:
+        # the output name is a symbolic link to a file elsewhere (existing or not): writing goes through the link
+        w["file_symlinks"] = {w["output_name"]: "store/real_" + w["output_name"]}
+        w["target_pre"] = False
     if rng.random() < 0.04:
         w["input_missing"] = True  # the operating system refuses to open the input: the API raises its OSError
     r = rng.random()
